@@ -39,6 +39,7 @@ type myQuestion struct {
 	finishSent bool
 	releaseRes bool
 	paramCaps  []capDesc // descriptors the peer put into the params
+	badDesc    bool      // ... the second of which names an export that does not exist: the call must fail
 	pa         *myQuestion // promised-answer target (nil for import targets)
 	paXform    []uint16
 	fwdFor     *theirQuestion // loop-back: this call was sent on behalf of a call the Conn pipelined on one of its questions
@@ -367,6 +368,15 @@ func (p *peer) moveCall() bool {
 	}
 	if q.flags&fRetParam != 0 && len(q.paramCaps) == 0 {
 		q.flags &^= fRetParam
+	}
+	if p.r.deferEcho && !p.r.hostile && t.imp != nil && pc == 0 && s.Chance("peer-bad-second-descriptor", 1, 8) {
+		// a buggy (not hostile) peer: a good descriptor followed by one that names an export the Conn
+		// does not have.  The Conn must answer with an exception - and let go of the reference it was
+		// given by the first descriptor, which the end-of-run accounting then sees (Release for it,
+		// import table empty).
+		q.paramCaps = append(q.paramCaps, capDesc{kind: "receiverHosted", id: 1 << 20})
+		q.badDesc = true
+		s.Probe("call_with_bad_descriptor_after_good_one")
 	}
 	if t.imp != nil {
 		q.target = fmt.Sprintf("imp:%d", t.imp.id)
